@@ -1,0 +1,16 @@
+//go:build verif
+
+package bigbuff
+
+import "sync"
+
+// verifBeforeCondWait, when set by a test built with the verif tag, runs in WaitCond after fn returned false and
+// before cond.Wait is called (with the cond's lock held): it lets a replay delay a goroutine at that point,
+// which is a legal schedule, in order to reproduce an interleaving deterministically.
+var verifBeforeCondWait func(*sync.Cond)
+
+func verifHookBeforeCondWait(c *sync.Cond) {
+	if f := verifBeforeCondWait; f != nil {
+		f(c)
+	}
+}
